@@ -202,5 +202,85 @@ theorem negateIf_spec (sgn0 : F → Sgn0) (hflip : ∀ y : F, y ≠ 0 → sgn0 (
     revert h h1
     cases sgn0 (-y) <;> cases sgn0 y <;> cases sgn0 u <;> simp
 
+/-! ### the map is the RFC's -/
+
+/-- What C15 says about an output triple `P` for the input `u`. -/
+structure SswuOut (sgn0 : F → Sgn0) (ξ A B u : F) (P : Jac F) : Prop where
+  z_ne : P.z ≠ 0
+  onCurve : OnCurveJ A B P
+  x_of_sq : IsSquare (sswuG A B (sswuX1 A B ξ u)) → affX P = sswuX1 A B ξ u
+  x_of_nsq : ¬ IsSquare (sswuG A B (sswuX1 A B ξ u)) → affX P = sswuX2 A B ξ u
+  y_sq : affY P ^ 2 = sswuG A B (affX P)
+  sign : affY P ≠ 0 → sgn0 (affY P) = sgn0 u
+
+theorem SswuOut.isSswu {sgn0 : F → Sgn0} {ξ A B u : F} {P : Jac F} (h : SswuOut sgn0 ξ A B u P)
+    (hroot : ∀ x : F, sswuG A B x ≠ 0) : IsSswu sgn0 A B ξ u (affX P) (affY P) := by
+  refine ⟨h.x_of_sq, h.x_of_nsq, h.y_sq, h.sign ?_⟩
+  intro h0
+  have := h.y_sq
+  rw [h0] at this
+  exact hroot _ (by rw [← this]; ring)
+
+section Branches
+variable {ξ A B : F} (hA : A ≠ 0) (hξ : ξ ≠ 0)
+variable (hexc : IsSquare (sswuG A B (B / (ξ * A))))
+variable (sgn0 : F → Sgn0) (hflip : ∀ y : F, y ≠ 0 → sgn0 (-y) ≠ sgn0 y)
+include hA hξ hflip
+
+/-- first-candidate output -/
+theorem sswuOut_branch1 (u y : F) (hy : y ^ 2 * x0den ξ A u ^ 3 = gx0num ξ A B u) :
+    SswuOut sgn0 ξ A B u (outJ ξ A u (x0num ξ B u) (negateIf y ((sgn0 y).xor (sgn0 u)))) := by
+  obtain ⟨hsq, hsg⟩ := negateIf_spec sgn0 hflip y u
+  set y' := negateIf y ((sgn0 y).xor (sgn0 u)) with hy'
+  have hd := x0den_ne_zero hA hξ u
+  have hX : affX (outJ ξ A u (x0num ξ B u) y') = x0 ξ A B u := outJ_affX hA hξ u _ _
+  have hY : affY (outJ ξ A u (x0num ξ B u) y') = y' := outJ_affY hA hξ u _ _
+  have hg : y' ^ 2 = sswuG A B (x0 ξ A B u) := by
+    rw [hsq]; exact sq_eq_g_x0 hA hξ u B hy
+  have hz : (outJ ξ A u (x0num ξ B u) y').z ≠ 0 := hd
+  have hissq : IsSquare (sswuG A B (x0 ξ A B u)) := ⟨y', by rw [← hg]; ring⟩
+  refine ⟨hz, (onCurveJ_iff_affine hz).mpr ?_, ?_, ?_, ?_, ?_⟩
+  · rw [hX, hY, hg]
+  · intro _; rw [hX, sswuX1_eq hA hξ]
+  · intro hn; exact absurd (by rwa [sswuX1_eq hA hξ]) hn
+  · rw [hX, hY, hg]
+  · rw [hY]; intro h0
+    refine hsg ?_
+    rintro rfl
+    apply h0
+    simp [hy', negateIf]
+
+include hexc in
+/-- second-candidate output -/
+theorem sswuOut_branch2 (u y : F) (hns : ¬ IsSquare (sswuG A B (x0 ξ A B u)))
+    (hy : y ^ 2 * x0den ξ A u ^ 3 = ξ ^ 3 * u ^ 6 * gx0num ξ A B u) :
+    SswuOut sgn0 ξ A B u
+      (outJ ξ A u (x0num ξ B u * (ξ * u ^ 2)) (negateIf y ((sgn0 y).xor (sgn0 u)))) := by
+  obtain ⟨hsq, hsg⟩ := negateIf_spec sgn0 hflip y u
+  set y' := negateIf y ((sgn0 y).xor (sgn0 u)) with hy'
+  have hd := x0den_ne_zero hA hξ u
+  have hnd : nd ξ u ≠ 0 := by
+    intro h0
+    apply hns
+    rw [x0_of_nd_eq hA hξ u B h0]; exact hexc
+  have hX : affX (outJ ξ A u (x0num ξ B u * (ξ * u ^ 2)) y') = ξ * u ^ 2 * x0 ξ A B u := by
+    rw [outJ_affX hA hξ]; unfold x0; field_simp
+  have hY : affY (outJ ξ A u (x0num ξ B u * (ξ * u ^ 2)) y') = y' := outJ_affY hA hξ u _ _
+  have hg : y' ^ 2 = sswuG A B (ξ * u ^ 2 * x0 ξ A B u) := by
+    rw [hsq]; exact sq_eq_g_x1 hA hξ u B hnd hy
+  have hz : (outJ ξ A u (x0num ξ B u * (ξ * u ^ 2)) y').z ≠ 0 := hd
+  refine ⟨hz, (onCurveJ_iff_affine hz).mpr ?_, ?_, ?_, ?_, ?_⟩
+  · rw [hX, hY, hg]
+  · intro hs; exact absurd (by rwa [sswuX1_eq hA hξ] at hs) hns
+  · intro _; rw [hX, sswuX2_eq hA hξ]
+  · rw [hX, hY, hg]
+  · rw [hY]; intro h0
+    refine hsg ?_
+    rintro rfl
+    apply h0
+    simp [hy', negateIf]
+
+end Branches
+
 end Sswu
 end PP
